@@ -24,9 +24,12 @@ Framing(kinds, ends, nd, depth) == [Base EXCEPT !.name = "framing", !.kinds = ki
 \* the same scenarios without the deviations of the pinned tree: model-checked only (the guarded invariants bite there)
 Clean(ms) == {[m EXCEPT !.bugs = {}, !.replay = FALSE] : m \in ms}
 QuickSet == {Futures(2, 3, 6), Session(5, 6), Login(3, 6), Join({"join", "logout"}, 1, 1, 4, 6), Framing({"login"}, {}, 2, 8)}
-ThoroughSet == {Futures(3, 4, 8), Session(7, 8), Login(5, 8), Join({"join", "leave", "logout"}, 2, 1, 5, 7), Framing({"login", "req"}, {"eof"}, 2, 10)}
+ThoroughSet == {Futures(3, 4, 7), Session(6, 7), Login(5, 8), Join({"join", "leave", "logout"}, 2, 1, 4, 7), Framing({"login", "req"}, {"eof"}, 2, 10)}
 ModesQuick == QuickSet \cup Clean(QuickSet)
 ModesThorough == ThoroughSet \cup Clean(ThoroughSet)
+\* the quick scenarios one step shallower (for a heavily loaded machine)
+SmallSet == {[m EXCEPT !.depth = @ - 1] : m \in QuickSet}
+ModesSmall == SmallSet \cup Clean(SmallSet)
 \* probes: the quick scenarios with ONE deviation not modelled -- replaying them shows that deviation as a divergence
 Without(b) == {[m EXCEPT !.bugs = @ \ {b}] : m \in QuickSet}
 ModesNoStaleSession == Without("StaleSession")
